@@ -538,6 +538,79 @@ def rule_r7_concrete(ctx: Ctx) -> None:
     ctx.count(n)
 
 
+def relaxed_forms(t: Any, v: Any, style: int) -> Any:
+    """a relaxed spelling of the explicit value v of type t: structures positional (style bit 0) or - with a single field -
+    bare (bit 1), applied at every level below the top (bit 2: at the top as well); unions stay explicit one-key dicts"""
+    top = bool(style & 4)
+
+    def rec(t_: Any, v_: Any, relax_here: bool) -> Any:
+        k = t_.kind
+        if k == "delimited":
+            return rec(t_.inner, v_, relax_here)
+        if k == "struct":
+            named = [(nm, ft) for nm, ft in t_.fields if nm]
+            inner = {nm: rec(ft, v_[nm], True) for nm, ft in named if nm in v_}
+            if not relax_here:
+                return inner
+            if len(named) == 1 and (style & 2) and named[0][0] in inner and not isinstance(inner[named[0][0]], dict):
+                return inner[named[0][0]]  # the bare value (not when it is itself a dict: that would read as a keyed form)
+            if (style & 1) and len(named) >= 2:  # (a one-field structure given a list would read it as the bare value)
+                out = []
+                for nm, _ in named:
+                    if nm not in inner:
+                        break
+                    out.append(inner[nm])
+                if len(out) == len(inner):
+                    return out if style & 8 else tuple(out)
+            return inner
+        if k == "union":
+            (nm, x), = v_.items()
+            ft = dict(t_.fields)[nm]
+            return {nm: rec(ft, x, True)}
+        if k in ("farr", "varr") and isinstance(v_, (list, tuple)):
+            return [rec(t_.elem, x, True) for x in v_]
+        return v_
+
+    return rec(t, v, top)
+
+
+def rule_r8_relaxed(ctx: Ctx) -> None:
+    """the relaxed input forms: positional structures and bare values for single-field structures, at any depth, mixed with
+    explicit dicts - serialize(..., relaxed=True) evaluated from the source must give the bytes of the explicit form"""
+    from . import concrete as C
+
+    ctx.rule("C06.R8", "relaxed input forms (positional structures as lists / tuples, a bare value for a single-field structure, at every nesting depth, in arrays and union variants, mixed with explicit dicts) serialize to the bytes of the explicit dict form, evaluated from the source on concrete nested types [bounded grid]", min_instances=3)
+    T = C.Types(ctx)
+    u8, u16 = T.uint(8), T.uint(16)
+    p = T.struct("P {uint8 column; uint16 row}", [("column", u8), ("row", u16)])
+    q = T.struct("Q {uint16 row; uint8 column}", [("row", u16), ("column", u8)])
+    s1 = T.struct("S1 {uint8 only}", [("only", u8)])
+    s2 = T.struct("S2 {void3; S1 inner}", [("", T.void(3)), ("inner", s1)])
+    un = T.union("U {P p; Q q; uint8 n}", [("p", p), ("q", q), ("n", u8)])
+    top = T.struct("T {P origin; Q target; S1 single; P[2] arr; U u; S2 deep; Q[<=2] more; uint8 last}", [("origin", p), ("target", q), ("single", s1), ("arr", T.farr(p, 2)), ("u", un), ("deep", s2), ("more", T.varr(q, 2)), ("last", u8)])
+    dl = T.delimited(top, 512)
+    v_top = {"origin": {"column": 1, "row": 2}, "target": {"row": 3, "column": 4}, "single": {"only": 5}, "arr": [{"column": 6, "row": 7}, {"column": 8, "row": 9}], "u": {"q": {"row": 10, "column": 11}}, "deep": {"inner": {"only": 12}}, "more": [{"row": 13, "column": 14}], "last": 15}
+    v_top2 = dict(v_top, u={"p": {"column": 16, "row": 17}}, more=[])
+    subjects = [(top, v_top), (top, v_top2), (dl, v_top), (un, {"q": {"row": 1, "column": 2}}), (s2, {"inner": {"only": 200}}), (T.struct("W {Q a; P b}", [("a", q), ("b", p)]), {"a": {"row": 258, "column": 3}, "b": {"column": 4, "row": 1029}})]
+    n = 0
+    for t, v in subjects:
+        want = C.encode(t, v, False)
+        bad = []
+        seen = set()
+        for style in range(16):
+            rv = relaxed_forms(t, v, style)
+            key = repr(rv)
+            if key in seen:
+                continue
+            seen.add(key)
+            got = C.run_codec(ctx, T, "serialize", t, rv, False, relaxed=True)
+            n += 1
+            if not isinstance(got, (bytes, bytearray)) or bytes(got) != want:
+                bad.append({"relaxed value": key[:300], "found": got.hex() if isinstance(got, (bytes, bytearray)) else got, "explicit form gives": want.hex()})
+        ctx.check(not bad, t.label, "%d relaxed spellings of one value" % len(seen), "a relaxed input form does not serialize to the bytes of the explicit dict form", "pydsdl/_serdes.py", bad[:3])
+    ctx.count(n)
+
+
 def run(ctx: Ctx) -> None:
     ctx.attempt(rule_r1_r2, ctx)
     ctx.attempt(rule_r3, ctx)
@@ -545,5 +618,6 @@ def run(ctx: Ctx) -> None:
     ctx.attempt(rule_r5, ctx)
     ctx.attempt(rule_r6_keys, ctx)
     ctx.attempt(rule_r7_concrete, ctx)
+    ctx.attempt(rule_r8_relaxed, ctx)
     ctx.assume("struct.pack/unpack implement IEEE 754 binary16/32/64 (trusted stdlib); write_bits/read_bits are LSB-first (bit arithmetic not decided here; offset accounting is C07.R3)")
-    ctx.undecided("value round trip for all (type, value) pairs; IEEE-754 / two's-complement / LSB-first bit patterns; equivalence of the aligned fast path and the bit-wise slow path; byte equality of the relaxed input forms")
+    ctx.undecided("value round trip for all (type, value) pairs; IEEE-754 / two's-complement / LSB-first bit patterns; equivalence of the aligned fast path and the bit-wise slow path; byte equality of the relaxed input forms beyond the grid of C06.R8")
